@@ -18,6 +18,10 @@ PANIC_CALLEES = [
     (r"^(core|std)::str::<impl str>::(split_at|split_at_mut)$", "str-contract"),
     (r"^(core|std)::cell::RefCell::<T>::(borrow|borrow_mut)$", "refcell"),
     (r"^(core|std)::iter::Iterator::step_by$", "iter-contract"),
+    (r"^(core|std)::iter::Iterator::(sum|product)$", "iter-arith"),
+    # arithmetic through the operator traits of the primitive integers (`&u32 + u32` is a call, and the callee inherits the
+    # caller's overflow checks): same failure as the inline Assert(overflow) of `u32 + u32`
+    (r"^<&?(u|i)(8|16|32|64|128|size) as (core|std)::ops::(Add|Sub|Mul|Div|Rem|Shl|Shr|Neg)(Assign)?(<[^>]*>)?>::\w+$", "arith-call"),
     (r"^std::process::exit$", "exit"),
     (r"^std::process::abort$", "abort"),
     (r"^chic::(Error|Warning)::(error|warning)$", "dep-contract:chic"),
@@ -69,6 +73,27 @@ def producer_of(fn, block_idx, local):
     return "?"
 
 
+WIDE = ("u32", "usize")
+SMALL_CONST = 1 << 16
+
+
+def _strip_ref(ty):
+    return (ty or "").lstrip("&").replace("mut ", "").strip()
+
+
+def add_discharge(ops):
+    """ARITH, mechanical part: an addition is discharged by the magnitude argument only when both operands are u32 or both
+    usize (nothing narrower) and a constant operand is below 2^16. Returns (ok, text)."""
+    tys = [_strip_ref(o.get("ty")) for o in ops]
+    if len(tys) != 2 or tys[0] != tys[1] or tys[0] not in WIDE:
+        return False, f"operand types {tys}"
+    for o in ops:
+        if o.get("k") == "const":
+            if not o.get("val") or int(o["val"]) >= SMALL_CONST:
+                return False, f"constant operand {o.get('val')}"
+    return True, f"{tys[0]} + {tys[1]}"
+
+
 def short(name):
     name = re.sub(r"<impl [^>]*>::", "", name)
     name = re.sub(r"::<[^>]*>", "", name)
@@ -91,7 +116,12 @@ def inventory(mir, reach):
             if t["k"] == "assert":
                 if t["msg"] in ("misaligned", "nullptr"):
                     continue  # compiler-inserted debug pointer checks on references: cannot fail in safe code
-                out.append(dict(fn=p, owner=owner, kind="assert:" + t["msg"], what=t["msg"], producer="", line=sp["line"], mac=sp["mac"], file=sp["file"]))
+                site = dict(fn=p, owner=owner, kind="assert:" + t["msg"], what=t["msg"], producer="", line=sp["line"], mac=sp["mac"], file=sp["file"])
+                if t["msg"] == "overflow:Add":
+                    defs = [st for st in b["stmts"] if st["val"]["rv"] == "binop:AddWithOverflow" and st["dst"]["l"] == t["cond"].get("l")]
+                    if len(defs) == 1:
+                        site["mech"], site["mech_text"] = add_discharge(defs[0]["val"]["ops"])
+                out.append(site)
             elif t["k"] == "call":
                 name = mir.callee_of(fn, t)
                 k = classify_callee(name)
@@ -106,5 +136,76 @@ def inventory(mir, reach):
                     prod = t["args"][0].get("ty", "") + "[" + (t["args"][1].get("ty", "") if len(t["args"]) > 1 else "") + "]"
                 elif k == "exit" and t["args"]:
                     prod = "status=" + (t["args"][0].get("val") or "?")
-                out.append(dict(fn=p, owner=owner, kind=k, what=short(name), producer=short(prod), line=sp["line"], mac=sp["mac"], file=sp["file"]))
+                site = dict(fn=p, owner=owner, kind=k, what=short(name), producer=short(prod), line=sp["line"], mac=sp["mac"], file=sp["file"])
+                if k == "arith-call":
+                    site["what"] = name  # keep the operand types: `<&u32 as Add<u32>>::add`
+                    if re.search(r"::ops::Add(Assign)?(<[^>]*>)?>::add(_assign)?$", name):
+                        site["mech"], site["mech_text"] = add_discharge(t["args"])
+                out.append(site)
     return out
+
+
+INT_TY = re.compile(r"^(u|i)(8|16|32|64|128|size)$")
+NARROW_OK = ("u8", "u16", "u32", "usize", "bool", "char")
+LARGE_CALLS = re.compile(
+    r"::(wrapping_\w+|overflowing_\w+|unchecked_\w+|saturating_\w+|from_str_radix|pow|checked_pow|next_power_of_two|rotate_left|rotate_right|swap_bytes|reverse_bits|"
+    r"from_(le|be|ne)_bytes|to_bits|abs_diff|max_value|next_multiple_of|isqrt)$"
+)
+INT_PARSE = re.compile(r"<(u|i)(8|16|32|64|128|size) as (core|std)::str::FromStr>::from_str$|str>::parse$")
+
+
+def _std_macro(sp):
+    return bool(sp.get("exp")) and re.match(r"^(std|core|alloc)::", sp.get("mac") or "") is not None
+
+
+def magnitude_sources(mir, reach):
+    """Premise of the ARITH discharge, as far as it is visible in the MIR of the local crates: nothing reachable from main
+    manufactures a u32/usize that is large for a reason other than the size of the input. Returns
+    {rule: (scanned, [offender strings])}."""
+    r = {"CONST": [0, []], "UNOP": [0, []], "CAST": [0, []], "BINOP": [0, []], "CALL": [0, []]}
+
+    def where(p, sp):
+        return f"{p} at {sp['file']}:{sp['line']}"
+
+    for p in sorted(reach):
+        fn = mir.fns[p]
+        for b in fn.blocks:
+            if b["cleanup"]:
+                continue
+            t = b["term"]
+            operands = [(st["sp"], o) for st in b["stmts"] for o in st["val"]["ops"]]
+            if t["k"] == "call":
+                operands += [(b["tsp"], o) for o in t["args"]]
+            for sp, o in operands:
+                if o.get("k") == "const" and o.get("ty") in WIDE:
+                    r["CONST"][0] += 1
+                    if not o.get("val") or int(o["val"]) >= SMALL_CONST:
+                        if not _std_macro(sp):
+                            r["CONST"][1].append(f"{o['ty']} constant {o.get('val')} in {where(p, sp)}")
+            for st in b["stmts"]:
+                rv = st["val"]["rv"]
+                ops = st["val"]["ops"]
+                tys = [o.get("ty") for o in ops]
+                if rv in ("unop:Not", "unop:Neg") and tys and INT_TY.match(tys[0] or ""):
+                    r["UNOP"][0] += 1
+                    if tys[0] in WIDE and not _std_macro(st["sp"]):
+                        r["UNOP"][1].append(f"{rv} on {tys[0]} in {where(p, st['sp'])}")
+                elif rv.startswith("cast:") and rv.split(":")[1] in ("IntToInt", "FloatToInt"):
+                    to = rv.split(":", 2)[2]
+                    if to in WIDE:
+                        r["CAST"][0] += 1
+                        if (tys[0] or "") not in NARROW_OK and not _std_macro(st["sp"]):
+                            r["CAST"][1].append(f"{tys[0]} as {to} in {where(p, st['sp'])}")
+                elif rv in ("binop:Sub", "binop:Mul", "binop:Shl", "binop:SubUnchecked", "binop:MulUnchecked", "binop:ShlUnchecked") and tys and tys[0] in WIDE:
+                    r["BINOP"][0] += 1
+                    small_shift = rv.startswith("binop:Shl") and all(o.get("k") == "const" and o.get("val") and int(o["val"]) < 16 for o in ops)
+                    if not _std_macro(st["sp"]) and not small_shift:
+                        r["BINOP"][1].append(f"unchecked {rv[6:]} on {tys[0]} in {where(p, st['sp'])}")
+            if t["k"] == "call":
+                name = t["resolved"] or t["callee"]
+                r["CALL"][0] += 1
+                if (LARGE_CALLS.search(name) or INT_PARSE.search(name)) and not _std_macro(b["tsp"]):
+                    dest_ty = fn.locals[t["dest"]["l"]] if t["dest"]["proj"] == 0 else ""
+                    if re.search(r"\b(u32|usize)\b", dest_ty) or not dest_ty:
+                        r["CALL"][1].append(f"{name} -> {dest_ty} in {where(p, b['tsp'])}")
+    return r
